@@ -387,6 +387,26 @@ func genSOps(rng *Rng, sc *SScript, prop string) {
 		}
 		if prop == "C19" {
 			genRawOps(rng, sc, tasks)
+			if rng.Pct(8) {
+				// directed opening: an explicit task and a wildcard task that excludes it on one downstream, then a wildcard
+				// request (which carries exclusions of its own) that is rejected for its positions
+				mcp := `"milvus_connect_param":{"uri":"http://tgt-a:19530"}`
+				bad := Pick(rng, []string{
+					`"db_collections":{"*":[{"name":"*","positions":{"notavchannel":"CgFh"}}]}`,
+					`"db_collections":{"*":[{"name":"*","positions":{"by-dev-rootcoord-dml_0_5v0":"CgFh","by-dev-rootcoord-dml_1_6v0":"CgFh"}}]}`,
+					`"db_collections":{"*":[{"name":"*","positions":{"by-dev-rootcoord-dml_0_5v0":"!!"}}]}`,
+					`"db_collections":{"*":[{"name":"c1","positions":{"by-dev-rootcoord-dml_0_5v0":"CgFh","by-dev-rootcoord-dml_1_6v0":"CgFh"}}]}`,
+					`"db_collections":{"*":[{"name":"c1","positions":{"by-dev-rootcoord-dml_0_xv0":"CgFh"}}]}`,
+					`"db_collections":{"*":[{"name":"c1","positions":{"by-dev-rootcoord-dml_0_5v0":"!!"}}]}`,
+				})
+				open3 := []SOp{
+					{K: "create", Task: "tk91", Spec: &SSpec{Target: 0, DB: "", Coll: "c1", Creds: "token"}},
+					{K: "create", Task: "tk92", Spec: &SSpec{Target: 0, DB: "default", Coll: "*", Creds: "token"}},
+					{K: "raw", Task: "raw91", Method: "POST", MustReject: true, Body: `{"request_type":"create","request_data":{"task_id":"raw91",` + mcp + `,` + bad + `}}`},
+				}
+				sc.Ops = append(open3, sc.Ops...)
+				sc.Knobs.MaxTaskNum = 10
+			}
 		}
 	}
 }
@@ -429,6 +449,14 @@ func genRawOps(rng *Rng, sc *SScript, tasks []string) {
 		{cr(mcp + `,"collection_infos":[]`), true},
 		{cr(`"collection_infos":[{"name":"c7"}]`), true},
 		{cr(mcp + `,"collection_infos":[{"name":"` + longName(300) + `"}]`), true},
+		// rejected after a start position was stored: nothing may stay behind (also when the server chooses the task id)
+		{cr(mcp + `,"collection_infos":[{"name":"c7","positions":{"by-dev-rootcoord-dml_0_4711v0":"CgFh"}}],"rpc_channel_info":{"position":"%%%"}`), true},
+		{cr(mcp + `,"collection_infos":[{"name":"c7","positions":{"by-dev-rootcoord-dml_0_4711v0":"CgFh","by-dev-rootcoord-dml_1_4711v1":"CgFh"}}],"rpc_channel_info":{"position":"!"}`), true},
+		// wildcard specifications (they carry exclusions when explicit tasks exist) rejected for their positions
+		{cr(mcp + `,"collection_infos":[{"name":"*","positions":{"notavchannel":"CgFh"}}]`), true},
+		{cr(mcp + `,"db_collections":{"*":[{"name":"*","positions":{"notavchannel":"CgFh"}}]}`), true},
+		{cr(mcp + `,"db_collections":{"*":[{"name":"*","positions":{"by-dev-rootcoord-dml_0_5v0":"CgFh","by-dev-rootcoord-dml_1_6v0":"CgFh"}}]}`), true},
+		{cr(mcp + `,"collection_infos":[{"name":"*","positions":{"by-dev-rootcoord-dml_0_5v0":"CgFh","by-dev-rootcoord-dml_1_6v0":"CgFh"}}]`), true},
 		{`{"request_type":"get","request_data":{}}`, false}, {`{"request_type":"get","request_data":{"task_id":12}}`, false}, {`{"request_type":"get","request_data":{"task_id":"nope"}}`, false},
 		{`{"request_type":"delete","request_data":{"task_id":"nope"}}`, false}, {`{"request_type":"pause","request_data":{"task_id":"nope"}}`, false}, {`{"request_type":"resume","request_data":{"task_id":"nope"}}`, false},
 		{`{"request_type":"position","request_data":{"task_id":"nope"}}`, false}, {`{"request_type":"list","request_data":"x"}`, false}, {`{"request_type":"maintenance","request_data":{}}`, false},
@@ -438,6 +466,20 @@ func genRawOps(rng *Rng, sc *SScript, tasks []string) {
 	for i := 0; i < n; i++ {
 		b := Pick(rng, bodies)
 		op := SOp{K: "raw", Body: strings.ReplaceAll(b.body, "@ID@", fmt.Sprintf("raw%02d", i)), Method: "POST", MustReject: b.rej, Task: fmt.Sprintf("raw%02d", i)}
+		if strings.Contains(b.body, "@ID@") {
+			switch x := rng.Intn(100); {
+			case x < 25:
+				// the server chooses the task id
+				op.Body = strings.ReplaceAll(b.body, `"task_id":"@ID@",`, "")
+				op.Task = ""
+			case x < 45:
+				// task ids that are path expressions: semantically invalid names
+				bad := Pick(rng, []string{"..", ".", "a/b", "x/../tk01", "tk01/..", "../task_info/tk01", "tk01/", "/tk01"})
+				op.Body = strings.ReplaceAll(b.body, "@ID@", bad)
+				op.Task = bad
+				op.MustReject = true
+			}
+		}
 		if rng.Pct(8) {
 			op.Method = Pick(rng, []string{"GET", "PUT", "DELETE"})
 			op.MustReject = true
